@@ -1046,7 +1046,11 @@ func (st *Runtime) evalMultiplicativeExpression(node *MultiplicativeExprNode) re
 			if needFloatPromotion {
 				left = reflect.ValueOf(float64(left.Int()) / right.Float())
 			} else {
-				left = reflect.ValueOf(left.Int() / toInt(right))
+				divisor := toInt(right)
+				if divisor == 0 {
+					node.errorf("integer division by zero")
+				}
+				left = reflect.ValueOf(left.Int() / divisor)
 			}
 		} else if isFloat(kind) {
 			left = reflect.ValueOf(left.Float() / toFloat(right))
@@ -1054,12 +1058,21 @@ func (st *Runtime) evalMultiplicativeExpression(node *MultiplicativeExprNode) re
 			if needFloatPromotion {
 				left = reflect.ValueOf(float64(left.Uint()) / right.Float())
 			} else {
-				left = reflect.ValueOf(left.Uint() / toUint(right))
+				divisor := toUint(right)
+				if divisor == 0 {
+					node.errorf("integer division by zero")
+				}
+				left = reflect.ValueOf(left.Uint() / divisor)
 			}
 		} else {
 			node.Left.errorf("a non numeric value in multiplicative expression")
 		}
 	case itemMod:
+		if isInt(kind) || isFloat(kind) || isUint(kind) {
+			if divisor := toFloat(right); divisor > -1 && divisor < 1 {
+				node.errorf("integer division by zero")
+			}
+		}
 		if isInt(kind) {
 			left = reflect.ValueOf(left.Int() % toInt(right))
 		} else if isFloat(kind) {
